@@ -156,6 +156,7 @@ def run(rep, tier, seed):
             s, st = honest()
             # rebuild the same corruption on this session's own stream (fresh ephemeral keys)
             frames = apply_variant(st, label)
+            first_dev = variant_dev(st, label, first_dev)
             pts = chunk_points(frames, mode)
             ml, il, calls, info = s.feed(frames, pts)
             lines.append(ml); impls.append(il)
@@ -345,6 +346,19 @@ async def client_key_case(loop, key):
             pass
         await simnet.drain(loop)
     return {"error": err, "writes": len(writes), "first_write": writes[0].hex() if writes else ""}
+
+
+def variant_dev(st, label, dev):
+    """First deviating frame of a variant ON THIS SESSION'S bytes (fresh ephemeral keys give fresh ciphertext): a frame cut short whose
+    missing tail happens to equal the bytes that follow it is still what the device sent, the stream deviates one frame later."""
+    parts = label.split(":")
+    if parts[0] != "trunc":
+        return dev
+    i, k = int(parts[1]), int(parts[2])
+    fr = st.frames
+    real = fr[i]["real"]
+    nxt = b"".join(x["real"] for x in fr[i + 1:])
+    return i + 1 if (nxt and real[:k] + nxt[:len(real) - k] == real) else i
 
 
 def apply_variant(st, label):
